@@ -2,11 +2,12 @@
 # tools/seedsweep.sh <workers> – regression over every kept seeded change: each is applied to a scratch copy of
 # /repo's HEAD and the check of the property it breaks is run against it, in <workers> private copies of /verif
 # (the generated facts live inside the Lean project, so runs against different trees cannot share one copy).
+# SEEDS=<regex> restricts the seeds, SWEEP_OUT=<file name> the result file.
 # Result lines go to seeded/SWEEP.txt (DETECTED / MISSED / PATCH-DOES-NOT-APPLY per seed).
 V=$(cd "$(dirname "$0")/.." && pwd)
 W=${1:-4}
-OUT=$V/seeded/SWEEP.txt; : > "$OUT.tmp"
-ls "$V/seeded" | grep '^C[0-9][0-9]-' > /root/work/sweep-all.txt
+OUT=$V/seeded/${SWEEP_OUT:-SWEEP.txt}; : > "$OUT.tmp"
+ls "$V/seeded" | grep '^C[0-9][0-9]-' | grep -E "${SEEDS:-.}" > /root/work/sweep-all.txt
 i=0
 while [ $i -lt $W ]; do
   ( D=/root/work/sweep$i; rm -rf $D; cp -a "$V" $D; rm -f $D/.build/lock* 
